@@ -25,8 +25,31 @@ theorem C04_expand_left_unmatched (q : SemQuery) (B : Table) (js : JoinSpec) (hj
     (nr : Nat) (recA : Row) (key : List Val) (hkey : lhsKey js.lhs nr recA = .ok key)
     (hnone : partnersSpec js.rhs B key = []) :
     expandRecord q B nr recA =
-      .ok [{ nr := nr, a := recA, bnr := none, b := some (List.replicate (maxWidth B) Val.none) }] := by
+      .ok [{ nr := nr, a := recA, bnr := none, b := some (List.replicate (nullWidth js B) Val.none) }] := by
   simp [expandRecord, hj, hk, hkey, hnone, liftErr, bind, Except.bind]
+
+/-- the null record is as wide as the longest B record and at least as wide as the join header: with a
+rectangular join table (every record as wide as the header, or no record at all) it is exactly as wide as
+the header, so `b.*` always contributes one field per header name (C07) -/
+theorem C04_null_width (js : JoinSpec) (B : Table) :
+    maxWidth B ≤ nullWidth js B ∧ js.nullWidth ≤ nullWidth js B ∧
+    ((∀ r ∈ B, r.length = js.nullWidth) → nullWidth js B = js.nullWidth) := by
+  refine ⟨Nat.le_max_left _ _, Nat.le_max_right _ _, ?_⟩
+  intro h
+  have : ∀ (B : Table) (m : Nat), (∀ r ∈ B, r.length = js.nullWidth) → m ≤ js.nullWidth →
+      B.foldl (fun m r => max m r.length) m ≤ js.nullWidth := by
+    intro B
+    induction B with
+    | nil => intro m _ hm; simpa using hm
+    | cons r rs ih =>
+      intro m hB hm
+      simp only [List.foldl_cons]
+      apply ih _ (fun r' hr' => hB r' (by simp [hr']))
+      have := hB r (by simp)
+      omega
+  have h0 := this B 0 h (Nat.zero_le _)
+  unfold nullWidth maxWidth
+  omega
 
 theorem C04_left_null_fields_are_none (w i : Nat) : safeGet (List.replicate w Val.none) i = Val.none := by
   unfold safeGet
